@@ -105,9 +105,9 @@ func c13bOracle(r *e4Result) (string, bool, []string) {
 			return fmt.Sprintf("every PINGREQ was answered, yet the client closed the connection / dialled again (#%d %s)", e.Seq, e.Kind), pings >= 2, labels
 		}
 	}
-	for _, bc := range r.Conns {
-		if err := bc.cli.Err(); err != nil && errors.Is(err, ErrPingTimeout) {
-			return fmt.Sprintf("every PINGREQ was answered, yet connection c%d carries %v", bc.id, err), pings >= 2, labels
+	for _, ce := range r.ConnEnd {
+		if ce.Err != nil && errors.Is(ce.Err, ErrPingTimeout) {
+			return fmt.Sprintf("every PINGREQ was answered, yet connection c%d carries %v", ce.ID, ce.Err), pings >= 2, labels
 		}
 	}
 	if r.Stuck {
